@@ -165,7 +165,8 @@ def _assemble_cases(tier):
 
 ASSEMBLE_SCALES = [1e-15, 1e12]
 # "evaluate": no motion; the Field is used for post-processing (Evaluate_e with and without element means, Evaluate_n) between two integrations
-MOVES = ["translate", "rotate", "symmetry", "setcoord", "evaluate"]
+# "lift": a plane mesh translated out of the plane z = 0 (a plate modelled at its real height)
+MOVES = ["translate", "rotate", "symmetry", "setcoord", "evaluate", "lift"]
 
 
 def _moved_cases(tier):
@@ -296,6 +297,10 @@ def _run_nonsym(case):
 def _apply_move(mesh, mv, r):
     d = mesh.dim
     if mv == "evaluate":
+        return
+    if mv == "lift":
+        if d == 2:
+            mesh.Translate(0.0, 0.0, 0.7)
         return
     if mv == "translate":
         t = np.zeros(3)
